@@ -742,8 +742,36 @@ for _fn in PAIR_FUNCS:
     if _fn != "matsumoto_fidelity":
         CLAUSES[_fn + ".orthogonal"] = _make_orthogonal(_fn)
         CLAUSES[_fn + ".pure_overlap"] = _make_pure(_fn)
+def cvx_branch(p):
+    """fidelity / matsumoto_fidelity on density operators handed over as cvxpy expressions (the documented SDP branch, used when the
+    function appears inside a larger cvxpy problem) return the value of the defining formula, up to the SDP solver's accuracy"""
+    import cvxpy
+
+    from vt.contract import Undecided, Violation
+
+    fn = p["fn"]
+    a, b, _ = _pair(p)
+    A = cvxpy.bmat([[complex(x) for x in row] for row in a])
+    B = cvxpy.bmat([[complex(x) for x in row] for row in b])
+    try:
+        got = complex(_toq(fn)(A, B)).real
+    except cvxpy.error.SolverError as e:
+        raise Undecided("solver: %s" % str(e)[:100])
+    if got is None or not np.isfinite(got):
+        raise Undecided("the SDP solver returned no value")
+    exp = _oracle(fn, a, b)
+    tol = 2e-3
+    if abs(got - exp) > tol:
+        raise Violation("%s on cvxpy.bmat operands = %.8g, defining formula = %.8g (d=%d, %s %s pair, |diff| %.2e > %.0e)" % (fn, got, exp, p["d"], p.get("field", "complex"), p["kind"], abs(got - exp), tol))
+    return {"diff": abs(got - exp)}
+
+
+cvx_branch.function = "fidelity/matsumoto_fidelity"
+cvx_branch.limit = 120
+
 CLAUSES.update(
     {
+        "cvx_branch.def": cvx_branch,
         "trace_distance.triangle": triangle,
         "trace_distance.range": nonneg,
         "fvdg.lower": fvdg_lower,
@@ -887,6 +915,12 @@ def cases(tier, seed):
         add("matsumoto_fidelity.def", prm2, "matsumoto_fidelity/fullrank-pair/%s" % fld)
         add("matsumoto_fidelity.le_F", prm2, "matsumoto_fidelity/fullrank-pair/%s" % fld)
         add("trace_distance.triangle", dict(d=d, kind="mixed", field=fld, seed=s), "trace_distance/mixed-triple/%s" % fld)
+    # ---- the SDP branch taken for cvxpy operands (non-commuting full-rank pairs, real and complex)
+    for fn in ("fidelity", "matsumoto_fidelity"):
+        for d in (2, 3) if not thorough else (2, 3, 4):
+            for fld in fields:
+                for s in range(2 if not thorough else 4):
+                    add("cvx_branch.def", dict(fn=fn, d=d, kind="fullrank", field=fld, seed=seed + s), "%s/cvxpy-operands/%s" % (fn, fld), function=fn)
     # ---- rejection of non-density inputs: every function x kind x position (d = 2, 3)
     for fn in PAIR_FUNCS:
         for d in (2, 3) if not thorough else (2, 3, 4, 5):
